@@ -1,7 +1,7 @@
 """C19 - concurrent requests do not influence one another, from the very first request."""
 PROP = 'C19'
-LEAN_MODULES = ['FalconModel.SchedProofs', 'FalconModel.NonInterf']
-DRIVERS = ['scdriver']
+LEAN_MODULES = ['FalconModel.SchedProofs', 'FalconModel.NonInterf', 'FalconModel.SharedMemoProofs', 'FalconModel.SharedCompose']
+DRIVERS = ['scdriver', 'smdriver']
 THEOREMS = [
     # threads x lazy router compile (falcon/routing/compiled.py find / _compile_and_find / _compile), model Sc
     'Sc.Good_mono', 'Sc.init_inv', 'Sc.mk_inv', 'Sc.lazy_same', 'Sc.run_inv', 'Sc.exec_inv', 'Sc.every_thread_gets_serial_result',
@@ -9,6 +9,14 @@ THEOREMS = [
     'Sc.no_lock_witness',
     # tasks x shared memo caches: generic non-interference
     'Ni.step_coherent', 'Ni.exec_coherent', 'Ni.memo_transparent', 'Ni.noninterference_of_local_steps',
+    # the kinds of process-wide state of the inventory: shared bounded memo at lookup/compute/store granularity (model Sm) ...
+    'Sm.find_coh', 'Sm.erase_coh', 'Sm.store_coh', 'Sm.store_bound', 'Sm.step_inv', 'Sm.exec_inv', 'Sm.init_inv', 'Sm.memo_transparent',
+    'Sm.execLru_is_exec', 'Sm.memo_transparent_lru', 'Sm.call_completes',
+    # ... lazily initialised cell (model Lz)
+    'Lz.GoodPc_mono', 'Lz.run_inv', 'Lz.exec_inv', 'Lz.lazy_init_idempotent', 'Lz.lazy_completes',
+    # ... and the composition: per-request programs x safe protocols (memo, lazy cell, locked router compile, products)
+    'Cp.step_rel', 'Cp.exec_rel', 'Cp.noninterference', 'Cp.solo_eq_Ni', 'Cp.memo_safe', 'Cp.lazy_safe', 'Cp.router_safe', 'Cp.prod_safe',
+    'Cp.falcon_shared_noninterference',
 ]
 STATEMENTS = {
     'Sc.every_thread_gets_serial_result': 'for any number of threads, any schedule (list of thread ids of any length) and any table size: a thread that has finished ran the finder of the one and only compile on that compile\'s complete tables, no thread re-enters the lazy stub, and the router is compiled at most once',
@@ -17,11 +25,27 @@ STATEMENTS = {
     'Sc.no_lock_witness': 'without the lock, on a 17-step schedule of two threads, thread 0 runs finder 1 on the tables of compile 2 and the router is compiled twice',
     'Ni.noninterference_of_local_steps': 'tasks whose steps read/write only their own component and consult shared state only through a memo of a pure function: after ANY interleaving (and any memo evictions) the state of task i is what i alone reaches in the same number of its own steps',
     'Ni.memo_transparent': 'a lookup through a coherent memo (entries only ever (k, f k)) returns f k',
+    'Sm.memo_transparent': 'N threads sharing a bounded memo table of a pure function f, each call being the separate steps lookup / compute (outside any lock) / store: for EVERY schedule of calls, steps and cache_clear()s, every capacity and every store policy (keep or overwrite an entry stored meanwhile by another thread, skip when full, evict ANY entry - LRU is one choice), every completed call for key k returned f k, what a thread is about to store or return is f of its key, the table only ever holds pairs (k, f k) and never more than `cap` of them; results that are exceptions are never stored',
+    'Sm.step_inv': 'one step of any thread (or a cache_clear()) preserves: table coherent and within capacity, every thread holds f of its key, every logged result is f of its key',
+    'Sm.memo_transparent_lru': 'the replay with functools.lru_cache\'s policy (keep on a concurrent insert, evict the least recently used entry) is one of the schedules memo_transparent quantifies over',
+    'Sm.call_completes': 'progress / non-vacuity: from any reachable state a thread that calls and is scheduled three times has returned f k',
+    'Lz.lazy_init_idempotent': 'a cell initialised lazily by any number of racing threads (several may find it empty and all write) with one deterministic value d is indistinguishable from eager initialisation: under any schedule of the lazy system and any schedule of the eager one every finished thread used d; the lazy cell never holds anything but d, the eager one always d',
+    'Lz.lazy_completes': 'progress: from any reachable state a thread scheduled four times has finished, with d',
+    'Cp.noninterference': 'tasks that touch only their own local state and reach shared state only through a protocol that is Safe for a specification `spec` (an invariant over the shared state and ALL threads\' protocol states is preserved by start/step/finish/environment actions and forces every delivered answer to be spec q): after ANY interleaving - each shared access itself interleaved step by step with the others - task i is where it gets alone when every access is answered by spec, in as many accesses as it has completed',
+    'Cp.memo_safe': 'the shared bounded memo (Sm, any capacity/policy, cache_clear as environment action) is a safe protocol for f (reuses Sm.step_inv)',
+    'Cp.lazy_safe': 'the lazily initialised cell (Lz) is a safe protocol for the constant d (reuses Lz.run_inv)',
+    'Cp.router_safe': 'find() on the lazily compiled router under _compile_lock (Sc, any number of finds per thread) is a safe protocol for "finder 1 on the complete tables of compile 1" (reuses Sc.run_inv / Sc.mk_inv)',
+    'Cp.prod_safe': 'the product of two safe protocols (disjoint shared components, a thread is inside at most one) is safe for the product specification',
+    'Cp.falcon_shared_noninterference': 'requests whose only shared accesses are memoised calls (any capacity/eviction policy, cache_clear at any time), uses of a lazily initialised idempotent cell and find() on the lazily compiled router are non-interfering under ANY interleaving at lookup/compute/store/lock/table-fill granularity: request i ends where it ends alone with every memoised call = f k, the cell = d and the router compiled once',
+    'Cp.solo_eq_Ni': 'the solo runs of the composition theorem are the solo runs of the earlier lemma Ni.noninterference_of_local_steps',
 }
 TRUSTED = [
     'sys.settrace line/opcode events as preemption points: CPython switches threads only between bytecodes, so every real interleaving of the traced code is a sequence of these steps (the converse - that each traced step is atomic - holds under the GIL; C-level GIL releases inside one bytecode are not exhibited)',
     'the scheduler-aware lock (harness/lib_sched.SLock) assigned to router._compile_lock behaves like threading.Lock used as a context manager',
     'the scripted asyncio gate (one task runs between two decisions of the controller) for the ASGI interleavings',
+    'the AST scan of harness/lib_inventory.py as the enumeration of process-wide state: purely syntactic detectors (memo decorators and their aliases/assignment forms, module-level containers and instances, mutable default arguments, class attributes, instance attributes of long-lived classes written outside __init__, nonlocal cells, objects handed to local helper closures); state reached only through other aliases, setattr()/__dict__, C extensions or modules outside falcon/ (and falcon/testing, bench, cmd, vendor, cyutil) is not seen',
+    'the hand-written classification of the inventory table (kind + justification per item): the check ties its SHAPE to the source on every run and validates "immutable result" dynamically, but e.g. "written by add_route() only" is a reading of the code',
+    'functools.lru_cache (C implementation) executes lookup and store atomically and calls the wrapped function in between; the model tie observes it through cache_info() after every call',
 ]
 ASSUMPTIONS = [
     'routes are not added while requests are in flight (add_route during traffic is outside the property)',
@@ -30,17 +54,27 @@ ASSUMPTIONS = [
 RULE = ('(a) router race: routers generated from 3 route sets (fields, int/uuid converters, complex segments) x 2 threads (quick) / 2 and 3 threads (thorough) issuing the first-ever find() for PRNG-chosen paths; '
         'every single-preemption schedule at line granularity (opcode granularity inside find/_compile_and_find), two-preemption schedules with the first preemption at an opcode of find/_compile_and_find or at the first/last lines of _compile and the second one densely after it and strided up to the end, plus PRNG-chosen 2-4 preemption schedules (quick: all single preemptions and a PRNG subset of the rest); each explored schedule is replayed through the Lean model (locking = true); '
         '(b) 2-3 concurrent ASGI requests over generated apps (routes with fields/converters, middleware, media, errors, custom error handlers), interleaved at every receive/send and at explicit awaits inside middleware/responders in a PRNG-chosen order, and 2-3 WSGI threads (deterministic scheduler with PRNG preemption points at line events inside falcon/, and free-running threads), each compared with one-at-a-time execution on an identical app of its own (the concurrent app is fresh: its requests are its first ever); '
-        'non-trivial = at least one preemption took place while another request was in flight; distinct = distinct (route set, paths, switch points) / (app, requests, schedule seed)')
-PARTIAL = ('proof, partial: the locking protocol of the lazy router compile and the generic non-interference lemma are proved; that Falcon\'s per-request steps really touch only their own req/resp/params '
-           '(the hypothesis of the lemma) is validated by the interleaved-vs-serial comparison on generated apps, not derived from the source; CPython\'s true atomicity (coarser than the traced steps) and '
-           'C-level GIL releases are not exhibited; the replay of real schedules through the model maps opcode/line events to the model\'s 12 step kinds (the three table loads of one call count as one step).')
+        '(c) inventory: every .py under $FALCON_REPO/falcon (without testing/bench/cmd/vendor/cyutil) is parsed with `ast` and every item of process-wide mutable state found by the detectors is compared with the classification table (one case per item and per per-request class; a new item, a changed decorator/shape, a stale row are mismatches naming the item); '
+        'every memoised function the scan finds - in the table or not - is called twice with equal PRNG arguments, the first result mutated in place deeply, the next call compared with a fresh uncached computation; for the private mutable-result memos of mediatypes the same at their only caller quality(); '
+        '(d) memo model: for each lru_cache-wrapped function of the inventory, PRNG call sequences of 0.5-3 x maxsize calls over maxsize+k keys (hits, misses, evictions, exceptions, cache_clear) on one thread, and 2-3 threads with 1-3 calls each over 1-3 keys under the deterministic scheduler with 1-4 PRNG preemptions inside the Python body (between lookup and store), the cache preloaded to (almost) full in 60% of the races; the ASGI header-name cache with 20-90 names; value/hits/misses/size after every call are replayed through the model; '
+        'non-trivial = at least one preemption took place while another request was in flight / a sequence with hits and evictions / an inventory item; distinct = distinct (route set, paths, switch points) / (app, requests, schedule seed) / (function, call sequence) / item')
+PARTIAL = ('proof, partial: proved are the locking protocol of the lazy router compile, the transparency of a shared bounded memo and of racing lazy initialisation under every schedule, and their composition with per-request programs '
+           '(Cp.falcon_shared_noninterference). The hypothesis of that composition - every write after import goes to the request\'s own objects or to an inventoried item of kind memo / lazy / lock-protected - is established by a checked '
+           'syntactic inventory (AST detectors + hand classification, tied to the source on every run), not by a semantic analysis of the Python code: aliasing beyond local helper closures, setattr/__dict__ writes and state outside falcon/ are not seen; '
+           'the items of kind configuration rest on the assumption that the app is not reconfigured during traffic, the items of kind OTHER (falcon.util.sync runner/executor) and the purity of the memoised functions are covered only by the '
+           'interleaved-vs-serial runs and the mutable-result oracles; that per-request steps touch only req/resp/params is still validated dynamically. CPython\'s true atomicity (coarser than the traced steps) and '
+           'C-level GIL releases are not exhibited; the replay of real router schedules maps opcode/line events to the model\'s 12 step kinds (the three table loads of one call count as one step); lru_cache\'s lookup and store are taken as atomic.')
 JOBS = {'quick': 4, 'thorough': 16}
 
 
 def run(ctx):
+    _inventory(ctx)
+    _memo_oracles(ctx)
+    _memo_tie(ctx)
     _router_race(ctx)
     _asgi_tasks(ctx)
     _wsgi_threads(ctx)
+    _audit_after_traffic(ctx)
 
 
 # ------------------------------------------------------------------ (a) threads x lazy router compile
@@ -461,6 +495,9 @@ def _build_apps(asgi, yp):
     return ns
 
 
+_TOKEN_RX = __import__('re').compile(r'T\d+x\d+')
+
+
 def _gen_request(rnd, idx):
     """One request with a token that appears nowhere else."""
     tok = f'T{idx}x{rnd.randrange(10**6)}'
@@ -634,6 +671,9 @@ def _asgi_tasks(ctx):
                     for j in range(n):
                         if j != i and specs[j]['tok'] in blob:
                             why = f'the response of request {i} contains the token of request {j}'
+                    foreign = set(_TOKEN_RX.findall(blob)) - {specs[i]['tok']}
+                    if why is None and foreign:
+                        why = f'the response of request {i} contains {sorted(foreign)[0]}, the token of a request processed earlier by this process'
             if why is None and rnd.random() < 0.3:
                 again = await serial(app, specs, chunkings)               # the same app, now warm, one at a time
                 if again != want:
@@ -701,6 +741,9 @@ def _wsgi_threads(ctx):
             for j in range(len(specs)):
                 if j != i and specs[j]['tok'] in blob:
                     return f'the response of request {i} contains the token of request {j}'
+            foreign = set(_TOKEN_RX.findall(blob)) - {specs[i]['tok']}
+            if foreign:
+                return f'the response of request {i} contains {sorted(foreign)[0]}, the token of a request processed earlier by this process'
         return None
 
     # ---- deterministic scheduler: PRNG preemption points at line events inside falcon/ and at the explicit points of the app
@@ -785,15 +828,591 @@ def _wsgi_threads(ctx):
         sys.setswitchinterval(old)
 
 
+# ------------------------------------------------------------------ (c) inventory of process-wide mutable state
+
+K_MEMO = 'memo-of-pure-function-with-immutable-result'
+K_MEMO_MUT = 'memo-of-pure-function-with-mutable-result'      # needs the mutable-result oracle (see `escape`)
+K_LAZY = 'lazily-initialised-idempotent'
+K_CONF = 'configuration-written-before-serving-only'
+K_LOCK = 'lock-protected'
+K_REQ = 'per-request'                                         # false positive of the scan: not shared between requests
+K_RO = 'read-only'                                            # bound at import, never written afterwards (scan finds no mutation)
+K_OTHER = 'OTHER'
+
+# which theorem / assumption covers a kind (the driver's `inv` command holds the same table on the Lean side)
+KIND_COVER = {
+    K_MEMO: 'Sm.memo_transparent',
+    K_MEMO_MUT: 'Sm.memo_transparent+mutable-result-oracle',
+    K_LAZY: 'Lz.lazy_init_idempotent',
+    K_LOCK: 'Sc.every_thread_gets_serial_result',
+    K_CONF: 'assumption:no-configuration-during-traffic',
+    K_REQ: 'none-needed:not-shared',
+    K_RO: 'none-needed:never-written',
+    K_OTHER: 'unproved:validated-by-interleaved-vs-serial-runs',
+}
+
+# classes whose instances live for one request / connection / body part / inspection: `self.X = ...` outside __init__ is not
+# process-wide state there (stores through `self.X.Y` are still reported, because the object behind self.X may be shared)
+PER_REQUEST_CLASSES = {
+    'Request': 'falcon/request.py, falcon/asgi/request.py: one instance per WSGI call / ASGI http|websocket scope (app.py:379, asgi/app.py:455)',
+    'Response': 'falcon/response.py, falcon/asgi/response.py: one instance per request',
+    'BodyPart': 'falcon/media/multipart.py, falcon/asgi/multipart.py: one per part of one request body',
+    'BoundedStream': 'falcon/stream.py, falcon/asgi/stream.py: wraps the input of one request',
+    'BufferedReader': 'falcon/util/reader.py, falcon/asgi/reader.py: buffers the input of one request',
+    'WebSocket': 'falcon/asgi/ws.py: one per websocket connection',
+    '_BufferedReceiver': 'falcon/asgi/ws.py: one per websocket connection',
+    '_BoundedFile': 'falcon/routing/static.py: one per served file response',
+    'Context': 'falcon/util/structures.py: req.context / resp.context, one per request object',
+}
+
+# (file, qualified name, shape reported by harness/lib_inventory.scan, kind, one-line justification, extras)
+#   extras: cap = maxsize of the memo; probe = name of the argument generator used by the oracles / the model tie;
+#           escape = for a memo with a mutable result: 'direct' (callers receive the object: the direct oracle applies) or the
+#           list of functions that are the only ones allowed to touch it (then the oracle is applied at that boundary);
+#           manual = not found by the scan (aliasing), listed by hand
+INVENTORY = [
+    # ---- falcon/app.py: the App object (lives as long as the process)
+    ('falcon/app.py', 'App._error_handlers', 'inst-attr:store[]', K_CONF, 'written by add_error_handler() only', {}),
+    ('falcon/app.py', 'App._middleware', 'inst-attr:rebind', K_CONF, 'rebuilt by add_middleware() only', {}),
+    ('falcon/app.py', 'App._serialize_error', 'inst-attr:rebind', K_CONF, 'set_error_serializer() only', {}),
+    ('falcon/app.py', 'App._sink_and_static_routes', 'inst-attr:rebind', K_CONF, '_update_sink_and_static_routes(), called from add_sink()/add_static_route() only; a tuple', {}),
+    ('falcon/app.py', 'App._sinks', 'inst-attr:.insert', K_CONF, 'add_sink() only', {}),
+    ('falcon/app.py', 'App._static_routes', 'inst-attr:.insert', K_CONF, 'add_static_route() only', {}),
+    ('falcon/app.py', 'App._unprepared_middleware', 'inst-attr:aug', K_CONF, 'add_middleware() only', {}),
+    ('falcon/asgi/app.py', 'App._error_handlers', 'inst-attr:store[]', K_CONF, 'add_error_handler() only', {}),
+    ('falcon/asgi/app.py', 'App._middleware_ws', 'inst-attr:rebind', K_CONF, '_prepare_middleware(), called from __init__/add_middleware() only', {}),
+    ('falcon/asgi/app.py', '_EVT_RESP_EOF', 'module-state:bound:container', K_RO, 'the one dict sent as the final empty body event of every response; falcon never writes to it', {}),
+    # ---- memoised functions
+    ('falcon/asgi/_asgi_helpers.py', '_validate_asgi_scope', 'memo:@lru_cache(maxsize=16)|refs=falcon/asgi/app.py:App.__call__', K_MEMO, 'str result; unsupported scopes raise (exceptions are not cached)', {'cap': 16, 'probe': 'scope'}),
+    ('falcon/asgi/request.py', 'Request.get_header(_name_cache=)', 'default-arg:{}|store[]', K_MEMO, 'kwarg cache name -> name.lower().encode(): bytes; at most 64 entries, never evicted (store skipped when full)', {'cap': 64}),
+    ('falcon/asgi/ws.py', '_supports_reason', 'memo:@_lru_cache_for_simple_logic(maxsize=16)|refs=falcon/asgi/app.py:App._handle_websocket;falcon/asgi/ws.py:WebSocket.__init__;falcon/asgi/ws.py:WebSocket.close', K_MEMO, 'bool result', {'cap': 16, 'probe': 'asgi_ver'}),
+    ('falcon/media/handlers.py', 'Handlers._create_resolver.resolve', 'memo:@_lru_cache_for_simple_logic(maxsize=64)', K_MEMO,
+     'one memo per Handlers object; a tuple (handler, serialize, deserialize) of long-lived configuration objects, a function of the key while Handlers.data is unchanged', {'cap': 64, 'probe': 'resolve'}),
+    ('falcon/media/handlers.py', 'Handlers._resolve', 'inst-attr:.cache_clear', K_CONF, 'cache_clear() from __setitem__/__delitem__/__ior__, i.e. when the handler mapping is reconfigured (the model\'s `clear` action)', {}),
+    ('falcon/media/handlers.py', '_best_match', 'memo:=lru_cache(maxsize=64)<-_best_match|refs=falcon/media/handlers.py:Handlers._create_resolver.resolve', K_MEMO, 'PyPy only (guarded by `if PYPY`); Optional[str] result', {'cap': 64, 'probe': 'best_match'}),
+    ('falcon/util/mediatypes.py', '_parse_media_range', 'memo:=lru_cache<-_MediaRange.parse|refs=', K_MEMO_MUT,
+     '_MediaRange has a mutable dict field; the name is referenced nowhere (dead code)', {'cap': 128, 'probe': 'media_range', 'escape': []}),
+    ('falcon/util/mediatypes.py', '_parse_media_ranges', 'memo:@lru_cache()|refs=falcon/util/mediatypes.py:quality', K_MEMO_MUT,
+     'tuple of _MediaRange objects (mutable dict field); only quality() touches them and only reads', {'cap': 128, 'probe': 'accept', 'escape': ['falcon/util/mediatypes.py:quality']}),
+    ('falcon/util/mediatypes.py', '_parse_media_type', 'memo:=lru_cache<-_MediaType.parse|refs=falcon/util/mediatypes.py:quality', K_MEMO_MUT,
+     '_MediaType has a mutable dict field; only quality() touches it and only reads', {'cap': 128, 'probe': 'media_type', 'escape': ['falcon/util/mediatypes.py:quality']}),
+    ('falcon/util/mediatypes.py', 'quality', 'memo:@lru_cache()', K_MEMO, 'float result', {'cap': 128, 'probe': 'quality'}),
+    ('falcon/util/misc.py', 'code_to_http_status', 'memo:@_lru_cache_for_simple_logic(maxsize=64)', K_MEMO, 'str result', {'cap': 64, 'probe': 'code'}),
+    ('falcon/util/misc.py', 'http_status_to_code', 'memo:@_lru_cache_for_simple_logic(maxsize=64)', K_MEMO, 'int result', {'cap': 64, 'probe': 'status'}),
+    # ---- constants that happen to be mutable containers / shared default objects
+    ('falcon/constants.py', 'FALCON_CUSTOM_HTTP_METHODS', 'module-state:bound:container', K_RO, 'list read from the environment at import', {}),
+    ('falcon/constants.py', 'HTTP_METHODS', 'module-state:bound:container', K_RO, 'list constant', {}),
+    ('falcon/constants.py', 'WEBDAV_METHODS', 'module-state:bound:container', K_RO, 'list constant', {}),
+    ('falcon/constants.py', '_META_METHODS', 'module-state:bound:container', K_RO, 'list constant', {}),
+    ('falcon/util/uri.py', '_HEX_TO_BYTE', 'module-state:bound:container', K_RO, 'lookup table built at import', {}),
+    ('falcon/inspect.py', 'MiddlewareTreeItemInfo._symbols', 'class-attr:class-literal', K_RO, 'dict constant of the inspect module', {}),
+    ('falcon/media/handlers.py', 'MultipartParseOptions._DEFAULT_HANDLERS', 'module-state:bound:instance:Handlers', K_RO,
+     'template Handlers object; MultipartParseOptions.__init__ takes a .copy() of it', {}),
+    ('falcon/media/json.py', '_DEFAULT_JSON_HANDLER', 'module-state:bound:instance:JSONHandler', K_RO,
+     'shared JSONHandler used by get_param_as_json / error serialisation / SSE; its attributes are set in __init__ only', {}),
+    ('falcon/media/json.py', 'http_error._DEFAULT_JSON_HANDLER', 'module-state:bound:instance:JSONHandler', K_RO, 'the same object, published to falcon.http_error at import', {}),
+    # ---- configuration
+    ('falcon/inspect.py', '_supported_routers', 'module-state:bound:container,store[]', K_CONF, 'register_router() decorator; read by inspect_routes() only (not on the request path)', {}),
+    ('falcon/request.py', 'RequestOptions._auto_parse_form_urlencoded', 'inst-attr:rebind', K_CONF, 'option setter', {}),
+    ('falcon/routing/compiled.py', 'CompiledRouter._roots', 'inst-attr:passed-to:insert', K_CONF, 'add_route() only (mutated through the local helper insert())', {}),
+    # ---- the lazily compiled router: every write happens inside _compile(), reached from add_route() (configuration) or from
+    #      _compile_and_find() under _compile_lock (model Sc)
+    ('falcon/routing/compiled.py', 'CompiledRouter._ast', 'inst-attr:rebind', K_LOCK, '_compile() only', {}),
+    ('falcon/routing/compiled.py', 'CompiledRouter._converters', 'inst-attr:.append,rebind', K_LOCK, '_compile() / _generate_ast() only', {}),
+    ('falcon/routing/compiled.py', 'CompiledRouter._find', 'inst-attr:rebind', K_LOCK, 'add_route() (configuration) and _compile_and_find() under the lock', {}),
+    ('falcon/routing/compiled.py', 'CompiledRouter._finder_src', 'inst-attr:rebind', K_LOCK, '_compile() only', {}),
+    ('falcon/routing/compiled.py', 'CompiledRouter._patterns', 'inst-attr:rebind', K_LOCK, '_compile() only (reset, then filled through the alias `patterns`)', {}),
+    ('falcon/routing/compiled.py', 'CompiledRouter._return_values', 'inst-attr:rebind', K_LOCK, '_compile() only (reset, then filled through the alias `return_values`)', {}),
+    ('falcon/routing/compiled.py', '_CxParent._children', 'inst-attr:.append', K_LOCK, 'code-generation tree built inside _compile()', {}),
+    # ---- false positives: objects that are not shared between requests
+    ('falcon/inspect.py', 'StringVisitor.indent', 'inst-attr:aug,rebind', K_REQ, 'one visitor per inspect call; not on the request path', {}),
+    ('falcon/util/structures.py', 'CaseInsensitiveDict._store', 'inst-attr:del[],store[]', K_REQ, 'generic mapping type; an instance belongs to whoever created it (falcon itself only uses it in falcon.testing)', {}),
+    # ---- other
+    ('falcon/util/sync.py', '_ActiveRunner._runner', 'inst-attr:rebind', K_OTHER, 'async_to_sync() helper: the asyncio Runner is re-created when its loop was closed; used by falcon.testing and by applications, not by request processing', {}),
+    ('falcon/util/sync.py', '_active_runner', 'module-state:bound:instance:_ActiveRunner', K_OTHER, 'the holder of that Runner', {}),
+    ('falcon/util/sync.py', '_one_thread_to_rule_them_all', 'module-state:bound:instance:ThreadPoolExecutor', K_OTHER,
+     'sync_to_async(threadsafe=False): a one-thread executor (stdlib, internally locked queue) that serialises non-thread-safe sync callables; results travel through per-call futures', {}),
+]
+
+
+def _tok(s):
+    return s.replace(' ', '')
+
+
+_SCAN = []
+
+
+def _scan_inventory():
+    """scan + the `refs=` refinement of the shape of private memo names"""
+    import lib_inventory as L
+    if _SCAN:
+        return _SCAN[0]
+    items = L.scan(None, per_request_classes=set(PER_REQUEST_CLASSES))
+    out = {}
+    for key, it in items.items():
+        shape = it.shape_str()
+        name = key[1].split('.')[-1]
+        if it.detector == 'memo' and name.startswith('_') and '.' not in key[1]:
+            refs = sorted(f'{f}:{q}' for f, q in L.references(name) if not (f == key[0] and q == '<module>'))
+            shape += '|refs=' + ';'.join(refs)
+        out[key] = (_tok(shape), it.lines)
+    _SCAN.append(out)
+    return out
+
+
+def _inventory(ctx):
+    """Translator-style tie: the AST scan of $FALCON_REPO/falcon must coincide with the hand-classified table."""
+    if ctx.shard[0] != 0:
+        return
+    import lib_inventory as L
+    scanned = _scan_inventory()
+    table = {(r[0], r[1]): r for r in INVENTORY}
+    assert len(table) == len(INVENTORY), 'duplicate row in INVENTORY'
+    sess = ctx.session('AST inventory of process-wide mutable state in falcon/ = classification table (every item classified, same shape, no stale row)', 'smdriver')
+    for key in sorted(set(scanned) | set(table)):
+        row = table.get(key)
+        item = _tok(f'{key[0]}:{key[1]}')
+        if key in scanned:
+            shape, lines = scanned[key]
+            if row is None:
+                kind = 'UNLISTED'
+            elif _tok(row[2]) != shape:
+                kind = 'SHAPE-CHANGED(was:' + _tok(row[2]) + ')'
+            else:
+                kind = row[3]
+        else:
+            shape, lines = ('manual' if row[5].get('manual') else 'GONE'), []
+            kind = row[3]
+        sess.case({'file': key[0], 'name': key[1], 'shape_in_source': shape, 'lines': lines[:6], 'table_kind': row[3] if row else None,
+                   'table_shape': row[2] if row else None})
+        sess.op(f'inv {item} {shape} {kind}', 'ok:' + KIND_COVER.get(row[3] if row else '', '?'))
+        ctx.seen(('inv', key), True)
+        ctx.count('inventory_items')
+        ctx.count('inventory_kind_' + (row[3] if row else 'UNLISTED'))
+    # the per-request classes named in the table must exist
+    base, files = L.source_files()
+    src = '\n'.join(open(p, encoding='utf-8').read() for p in files)
+    for cname in sorted(PER_REQUEST_CLASSES):
+        present = ('class %s(' % cname) in src or ('class %s:' % cname) in src
+        sess.case({'per_request_class': cname})
+        sess.op(f'inv class:{cname} {"class:exists" if present else "GONE"} {K_REQ}', 'ok:' + KIND_COVER[K_REQ])
+        ctx.count('inventory_per_request_classes')
+    sess.finish()
+    ctx.notes.append(f'inventory: {len(scanned)} items found by the AST scan of {len(files)} files, {len(INVENTORY)} table rows')
+
+
+# ---- argument generators for the memoised functions (used by the oracles and by the model tie)
+
+_MEDIA_TYPES = ['application/json', 'text/html', 'text/plain; charset=utf-8', 'application/x-www-form-urlencoded', 'application/msgpack',
+                'image/png', 'application/json; version=2', 'text/*', '*/*', 'application/vnd.c19+json', 'application/xml', 'multipart/form-data; boundary=x']
+_ACCEPTS = ['*/*', 'application/json', 'text/html, application/json;q=0.8', 'text/*;q=0.3, text/html;q=0.7, */*;q=0.1', 'application/xml;q=0.9,text/plain',
+            'application/json; version=2, application/json;q=0.5', 'image/*', 'text/html;level=1', 'application/msgpack, */*;q=0']
+
+
+def _probe_args(name, rnd, n):
+    """n argument tuples (hashable) for the memoised function with probe name `name`; about one in seven makes it raise"""
+    import http
+    out = []
+    for _ in range(n):
+        bad = rnd.random() < 0.15
+        if name == 'status':
+            c = rnd.randrange(100, 600)
+            out.append((rnd.choice(['ab', 'abc def', b'zz ' + bytes([97 + rnd.randrange(26)]), 'x%d' % rnd.randrange(9)]),) if bad else
+                       (rnd.choice([c, c, f'{c} Text {rnd.randrange(50)}', f'{c} X'.encode(), rnd.choice(list(http.HTTPStatus))]),))
+        elif name == 'code':
+            c = rnd.randrange(100, 1000)
+            out.append((rnd.choice([rnd.randrange(1000, 1100), rnd.randrange(0, 100), 'x', b'y']),) if bad else
+                       (rnd.choice([c, c, rnd.choice(list(http.HTTPStatus)), f'{c} Reason{rnd.randrange(40)}', f'{c} B'.encode()]),))
+        elif name == 'media_type':
+            out.append((rnd.choice(['nonsense', '', 'a;b']),) if bad else (rnd.choice(_MEDIA_TYPES + ['c19/t%d' % rnd.randrange(300), 'a/b; p=%d' % rnd.randrange(300)]),))
+        elif name == 'media_range':
+            out.append((rnd.choice(['text/html;q=7', 'bogus', 'a/b;q=x']),) if bad else (rnd.choice(_MEDIA_TYPES + ['c19/r%d;q=0.%d' % (rnd.randrange(300), rnd.randrange(10))]),))
+        elif name == 'accept':
+            out.append((rnd.choice(['text/html;q=2', 'garbage', '', 'a/b, nope']),) if bad else
+                       (rnd.choice(_ACCEPTS + ['c19/a%d, text/html;q=0.%d' % (rnd.randrange(300), rnd.randrange(10)) for _ in range(4)]),))
+        elif name == 'quality':
+            out.append((rnd.choice(_MEDIA_TYPES + ['nonsense']), rnd.choice(['text/html;q=2', 'junk'])) if bad else
+                       (rnd.choice(_MEDIA_TYPES + ['c19/q%d' % rnd.randrange(60)]), rnd.choice(_ACCEPTS + ['c19/q%d;q=0.5, */*;q=0.1' % rnd.randrange(60)])))
+        elif name == 'scope':
+            out.append((rnd.choice(['http', 'websocket', 'lifespan', 'c19']), rnd.choice(['3.0', '1.0', '4.%d' % rnd.randrange(9)]), rnd.choice(['1.1', '0.9', '1.%d' % rnd.randrange(2, 30)])) if bad else
+                       (rnd.choice(['http', 'http', 'websocket', 'lifespan']), rnd.choice([None, '2.0', '2.1', '2.%d' % rnd.randrange(30)]), rnd.choice(['1.1', '2', '3'])))
+        elif name == 'asgi_ver':
+            out.append((rnd.choice(['x.y', '2.', 'v2']),) if bad else (rnd.choice(['2.0', '2.1', '2.2', '2.3', '2.4', '3.0', '2'] + ['%d.%d' % (rnd.randrange(1, 5), rnd.randrange(0, 12)) for _ in range(8)]),))
+        elif name == 'resolve':
+            out.append((rnd.choice(_MEDIA_TYPES + [None, '', 'c19/x%d' % rnd.randrange(80)] + ['application/json; v=%d' % rnd.randrange(200) for _ in range(6)]),
+                        rnd.choice(['application/json', 'text/plain', 'application/x-www-form-urlencoded']), rnd.random() < 0.7))
+        elif name == 'best_match':
+            out.append((rnd.choice(_MEDIA_TYPES + ['c19/b%d' % rnd.randrange(80)]), ('application/json', 'application/x-www-form-urlencoded', 'multipart/form-data')))
+        else:       # an item that is not in the table: a battery of plausible arguments, most calls will raise
+            out.append(rnd.choice([('{"a": [1, {"b": 2}], "c19": "%d"}' % rnd.randrange(10),), ('[1, [2, 3], {"k": "v"}]',), ('application/json',), ('text/html;q=0.5, */*',),
+                                   ('200 OK',), (200,), (b'abc',), ('/items/7',), ('a=1&b=2',), ('X-Header',), ('2.3',), ('text/plain', '*/*'),
+                                   ('http', '2.0', '1.1'), (('a', 'b'),), ()]))
+    return out
+
+
+def _locate_memo(row_or_key):
+    """live callable for a memo item, and a fresh-computation callable (the undecorated function) if there is one"""
+    import lib_inventory as L
+    file, qual = row_or_key[0], row_or_key[1]
+    if (file, qual) == ('falcon/media/handlers.py', 'Handlers._create_resolver.resolve'):
+        from falcon.media import Handlers
+        fn = Handlers()._resolve
+    else:
+        fn = L.locate(file, qual)
+    if fn is None or not callable(fn):
+        return None, None
+    return fn, getattr(fn, '__wrapped__', None)
+
+
+def _call(fn, args):
+    from runner import alarm, Hang
+    try:
+        with alarm(3):
+            return ('ok', fn(*args))
+    except Hang:
+        return ('hang', None)
+    except Exception as e:  # noqa
+        return ('exc', type(e).__name__)
+
+
+O_MEMO_DIRECT = ('memoised function: called twice with equal arguments, the first result mutated in place (deeply) - the next call returns a value equal to a fresh, '
+                 'uncached computation (a memo must not hand out a shared mutable document)')
+O_MEMO_PRIVATE = ('memo with a mutable result that is private to its module: the cached objects stay equal to a fresh computation across uses of the functions that '
+                  'are allowed to touch them, and those functions return immutable values')
+O_MEMO_AUDIT = 'after all the generated traffic: the cached objects of the mutable-result memos and the header-name cache still hold (k, f k) only'
+
+
+def _memo_oracles(ctx):
+    """The mutable-result oracle on every memo item the scan finds - listed in the table or not."""
+    import lib_inventory as L
+    rnd = ctx.rng
+    scanned = _scan_inventory()
+    table = {(r[0], r[1]): r for r in INVENTORY}
+    memo_keys = [k for k, (shape, _) in scanned.items() if shape.startswith('memo:')]
+    for key in sorted(memo_keys):
+        row = table.get(key)
+        fn, wrapped = _locate_memo(key)
+        label = f'{key[0]}:{key[1]}'
+        if fn is None:
+            ctx.count('memo_oracle_item_not_reachable_by_import')
+            ctx.notes.append(f'memo item {label} cannot be reached by attribute lookup; only the inventory tie covers it')
+            continue
+        probe = (row[5].get('probe') if row else None) or '?'
+        private = bool(row and row[3] == K_MEMO_MUT and row[5].get('escape') != 'direct')
+        argsets = _probe_args(probe, rnd, ctx.n(120, 1200) if row else ctx.n(400, 2000))
+        shared = 0
+        for args in argsets:
+            base = _call(wrapped, args) if wrapped is not None else None
+            r1 = _call(fn, args)
+            if r1[0] != 'ok':
+                ctx.count('memo_oracle_call_raises')
+                continue
+            r2 = _call(fn, args)
+            before = L.snap(r2[1])
+            nmut = L.deep_mutate(r1[1], depth=3)
+            r3 = _call(fn, args)
+            fresh = _call(wrapped, args) if wrapped is not None else None
+            want = L.snap(fresh[1]) if (fresh is not None and fresh[0] == 'ok') else before
+            why = None
+            if r3[0] != 'ok':
+                why = f'the call after the mutation ends with {r3}'
+            elif L.snap(r3[1]) != want:
+                why = (f'{label}{args!r}: after the first result was mutated in place ({nmut} changes) the next call returns {r3[1]!r}, '
+                       f'a fresh computation gives {fresh[1] if fresh else "(the value before the mutation)"!r}')
+            if hasattr(fn, 'cache_clear'):
+                fn.cache_clear()            # do not leave the mutated object behind
+            ctx.count('memo_oracle_result_' + ('immutable' if nmut == 0 else 'mutable'))
+            if private:
+                # the object is shared by design; what matters is that nobody outside the declared boundary can reach it (below)
+                shared += (why is not None)
+                continue
+            ctx.oracle(O_MEMO_DIRECT, why is None, why, {'item': label, 'args': args, 'in_table': row is not None,
+                                                          'kind': row[3] if row else None, 'mutations_made': nmut})
+            ctx.seen(('memo-direct', label, args), nmut > 0)
+        if private:
+            ctx.count('memo_private_mutable_results_confirmed_shared', shared)
+            _private_boundary(ctx, key, row, fn, wrapped)
+
+
+def _private_boundary(ctx, key, row, fn, wrapped):
+    import lib_inventory as L
+    rnd = ctx.rng
+    label = f'{key[0]}:{key[1]}'
+    boundary = []
+    for b in row[5].get('escape') or []:
+        f, q = b.split(':')
+        bf, bw = _locate_memo((f, q))
+        brow = next((r for r in INVENTORY if (r[0], r[1]) == (f, q)), None)
+        boundary.append((b, bf, (brow[5].get('probe') if brow else None) or '?'))
+    probe = row[5].get('probe')
+    for args in _probe_args(probe, rnd, ctx.n(60, 600)):
+        r = _call(fn, args)
+        if r[0] != 'ok':
+            continue
+        fresh = _call(wrapped, args)
+        why = None
+        if fresh[0] != 'ok' or L.snap(r[1]) != L.snap(fresh[1]):
+            why = f'{label}{args!r}: the cached object {r[1]!r} differs from a fresh computation {fresh!r}'
+        for bname, bf, bprobe in boundary:
+            if why:
+                break
+            for bargs in _probe_args(bprobe, rnd, 6) + [a for a in [(args[0], rnd.choice(_ACCEPTS)), (rnd.choice(_MEDIA_TYPES), args[0])] if bprobe == 'quality']:
+                br = _call(bf, bargs)
+                if br[0] != 'ok':
+                    continue
+                nm = L.deep_mutate(br[1])
+                if nm:
+                    why = f'{bname}{bargs!r} returns a mutable value {br[1]!r}'
+                    break
+            after = _call(fn, args)
+            if why is None and (after[0] != 'ok' or L.snap(after[1]) != L.snap(fresh[1])):
+                why = f'{label}{args!r}: after calls of {bname} the cached object is {after!r}, a fresh computation gives {fresh[1]!r}'
+        ctx.oracle(O_MEMO_PRIVATE, why is None, why, {'item': label, 'args': args, 'boundary': [b[0] for b in boundary]})
+        ctx.seen(('memo-private', label, args), True)
+
+
+_AUDIT_KEYS = {
+    'media_type': [(m,) for m in _MEDIA_TYPES],
+    'accept': [(a,) for a in _ACCEPTS],
+    'media_range': [(m,) for m in _MEDIA_TYPES],
+}
+
+
+def _audit_after_traffic(ctx):
+    """coherence of the real tables at the end of the run (the invariant of Sm.memo_transparent, observed)"""
+    import lib_inventory as L
+    import falcon.asgi
+    for row in INVENTORY:
+        if row[3] != K_MEMO_MUT:
+            continue
+        fn, wrapped = _locate_memo(row)
+        if fn is None or wrapped is None:
+            continue
+        for args in _AUDIT_KEYS.get(row[5].get('probe'), []):
+            r, fresh = _call(fn, args), _call(wrapped, args)
+            ok = (r[0] == fresh[0]) and (r[0] != 'ok' or L.snap(r[1]) == L.snap(fresh[1]))
+            ctx.oracle(O_MEMO_AUDIT, ok, None if ok else f'{row[0]}:{row[1]}{args!r} holds {r!r}, a fresh computation gives {fresh!r}', {'item': f'{row[0]}:{row[1]}', 'args': args})
+    cache = _name_cache_of(falcon.asgi.Request)
+    if cache is not None:
+        bad = [(k, v) for k, v in list(cache.items()) if type(v) is not bytes or v != k.lower().encode('latin1')]
+        ok = not bad and len(cache) <= 64
+        ctx.oracle(O_MEMO_AUDIT, ok, None if ok else f'the header-name cache of falcon.asgi.Request.get_header holds {bad[:3]!r} ({len(cache)} entries)', {'item': 'falcon/asgi/request.py:Request.get_header(_name_cache=)', 'entries': len(cache)})
+        ctx.count('name_cache_entries_at_end', len(cache))
+
+
+def _name_cache_of(Request):
+    d = (Request.get_header.__defaults__ or ())
+    return d[-1] if d and isinstance(d[-1], dict) else None
+
+
+# ------------------------------------------------------------------ (d) the shared-memo model Sm against the real memoised functions
+
+def _memo_tie(ctx):
+    import threading
+    import lib_sched
+    from runner import hx
+    import falcon.asgi
+    import falcon.testing as ft
+    rnd = ctx.rng
+
+    def vtok(r):
+        return ('!' + str(r[1])) if r[0] != 'ok' else 'v' + hx(repr(r[1]).encode())
+
+    sess = ctx.session('real functools.lru_cache around falcon\'s memoised functions (one thread; 2-3 threads under the deterministic scheduler) = Sm model replay (LRU policy): '
+                       'value, hits, misses, size after every call', 'smdriver')
+    sess_nc = ctx.session('header-name kwarg cache of falcon.asgi.Request.get_header = Sm model replay (skip-when-full policy)', 'smdriver')
+
+    targets = []
+    for row in INVENTORY:
+        if not row[2].startswith('memo:') or not row[5].get('probe'):
+            continue
+        fn, wrapped = _locate_memo(row)
+        if fn is None or wrapped is None or not hasattr(fn, 'cache_info'):
+            ctx.count('memo_tie_target_inactive')     # e.g. _best_match outside PyPy
+            continue
+        targets.append((f'{row[0]}:{row[1]}', fn, wrapped, row[5]['probe'], row[5].get('cap')))
+    for label, fn, wrapped, probe, cap in targets:
+        # (the replay uses the capacity recorded in the table: a changed maxsize shows up as a changed shape and as a replay mismatch)
+        ctx.count('memo_tie_maxsize_as_in_table', int(fn.cache_info().maxsize == cap))
+
+    class Keys:
+        """token per Python-equal key (the equality lru_cache itself uses), fresh value per token"""
+        def __init__(s, wrapped):
+            s.tok, s.fresh, s.wrapped = {}, {}, wrapped
+        def __call__(s, args):
+            t = s.tok.get(args)
+            if t is None:
+                t = s.tok[args] = f'k{len(s.tok)}'
+                s.fresh[t] = vtok(_call(s.wrapped, args))
+            return t
+        def table(s):
+            return ';'.join(f'{t}={v}' for t, v in s.fresh.items()) or '-'
+
+    # ---- one thread: long call sequences with hits, misses, evictions, exceptions and cache_clear()
+    for label, fn, wrapped, probe, cap in targets:
+        for _ in range(ctx.n(16, 200)):
+            pool = list(dict.fromkeys(_probe_args(probe, rnd, 6 * cap)))[:cap + rnd.randint(max(1, cap // 4), cap)]
+            if rnd.random() < 0.25:
+                pool = pool[:max(2, cap // 2)]            # everything fits: hits only after the first round
+            keys = Keys(wrapped)
+            fn.cache_clear()
+            evs, done = [], []
+            ncalls = rnd.randint(2 * cap, 6 * cap) if rnd.random() < 0.7 else rnd.randint(2, cap)
+            hot = pool[:max(1, len(pool) // 4)]
+            clear_at = set(rnd.sample(range(ncalls), rnd.choice([0, 0, 0, 1, 2])))
+            for _c in range(ncalls):
+                if _c in clear_at:
+                    fn.cache_clear()
+                    evs.append('x')
+                    continue
+                args = rnd.choice(hot) if rnd.random() < 0.35 else rnd.choice(pool)
+                t = keys(args)
+                r = _call(fn, args)
+                ci = fn.cache_info()
+                evs += [f'c0:{t}', 's0', 's0', 's0']
+                done.append(f'0:{t}:{vtok(r)}:h{ci.hits}m{ci.misses}z{ci.currsize}')
+            ci = fn.cache_info()
+            sess.case({'function': label, 'maxsize': cap, 'calls': ncalls, 'distinct_keys': len(keys.tok), 'threads': 1})
+            sess.op(f'memo lru {cap} {keys.table()} {",".join(evs) or "-"}',
+                    (' '.join(done) or '-') + f' size={ci.currsize} hits={ci.hits} misses={ci.misses} agree=1')
+            ctx.seen(('memo-seq', label, tuple(evs[:60]), len(evs)), ci.hits > 0 and ci.misses > cap)
+            ctx.count('memo_tie_sequences_1thr')
+            ctx.count('memo_tie_calls', ncalls)
+            ctx.count('memo_tie_evicting_sequences', int(ci.misses > ci.currsize and ci.currsize == cap))
+            fn.cache_clear()
+
+    # ---- 2-3 threads under the deterministic scheduler: preemption inside the Python body of the memoised function, i.e. between
+    #      lookup and store; the same key is computed concurrently, stores race, the cache is full
+    tls = threading.local()
+    for label, fn, wrapped, probe, cap in targets:
+        code = wrapped.__code__
+        for _ in range(ctx.n(24, 300)):
+            n = rnd.choice([2, 2, 3])
+            small = list(dict.fromkeys(a for a in _probe_args(probe, rnd, 4)))[:rnd.choice([1, 2, 3])]
+            plans = [[rnd.choice(small) for _ in range(rnd.randint(1, 3))] for _ in range(n)]
+            keys = Keys(wrapped)
+            for p in plans:
+                for a in p:
+                    keys(a)
+            fn.cache_clear()
+            evs, done = [], []
+            # preload: fill the cache (almost) completely so that the racing stores have to evict
+            pre = []
+            if rnd.random() < 0.6:
+                cand = [a for a in dict.fromkeys(_probe_args(probe, rnd, 3 * cap)) if a not in small]
+                pre = cand[:rnd.choice([cap, cap - 1, cap - 2, cap // 2])]
+            for a in pre:
+                t = keys(a)
+                r = _call(fn, a)
+                ci = fn.cache_info()
+                evs += [f'c0:{t}', 's0', 's0', 's0']
+                done.append(f'0:{t}:{vtok(r)}:h{ci.hits}m{ci.misses}z{ci.currsize}')
+            E = 12 * sum(len(p) for p in plans)
+            sw = {p: rnd.choice([1, 2]) for p in rnd.sample(range(1, E + 1), rnd.choice([1, 2, 3, 4]))}
+            s = lib_sched.Sched(n, sw)
+            cur = {}
+
+            def tracer_for(i):
+                def local(frame, event, arg):
+                    if event == 'line':
+                        s.point(i)
+                    elif event == 'return':
+                        evs.extend([f's{i}', f's{i}'])          # compute finished; the store follows atomically (C code, no trace event)
+                    return local
+
+                def tr(frame, event, arg):
+                    if frame.f_code is code:
+                        t, st = cur[i]
+                        st['miss'] = True
+                        evs.extend([f'c{i}:{t}', f's{i}'])      # the call and its lookup (a miss) happened atomically just now
+                        return local
+                    return None
+                return tr
+
+            def body(i):
+                def b():
+                    tls.i = i
+                    for a in plans[i]:
+                        s.point(i)
+                        t = keys.tok[a]
+                        st = {'miss': False}
+                        cur[i] = (t, st)
+                        try:
+                            r = ('ok', fn(*a))
+                        except Exception as e:  # noqa
+                            r = ('exc', type(e).__name__)
+                        if not st['miss']:
+                            evs.extend([f'c{i}:{t}', f's{i}'])   # a hit: call, lookup and return in one atomic stretch
+                        ci = fn.cache_info()
+                        done.append(f'{i}:{t}:{vtok(r)}:h{ci.hits}m{ci.misses}z{ci.currsize}')
+                    return True
+                return b
+            res = lib_sched.run_threads(s, [body(i) for i in range(n)], tracer_for)
+            ci = fn.cache_info()
+            okrun = all(r == ('ok', True) for r in res) and not s.dead
+            ctx.oracle('memoised function under racing threads: no thread dies or deadlocks', okrun, None if okrun else f'{label}: {res}',
+                       {'function': label, 'plans': plans, 'switch_points': sorted(sw.items())})
+            sess.case({'function': label, 'maxsize': cap, 'threads': n, 'plans': plans, 'preloaded': len(pre), 'switch_points': sorted(sw.items())})
+            sess.op(f'memo lru {cap} {keys.table()} {",".join(evs) or "-"}',
+                    (' '.join(done) or '-') + f' size={ci.currsize} hits={ci.hits} misses={ci.misses} agree=1')
+            same_key_race = ci.misses > len(set(keys.tok[a] for p in plans for a in p) | set(keys.tok[a] for a in pre))
+            ctx.seen(('memo-race', label, str(plans), tuple(sorted(sw.items())), len(pre)), s.preemptions > 0)
+            ctx.count(f'memo_tie_races_{n}thr')
+            ctx.count('memo_tie_races_with_preemption', int(s.preemptions > 0))
+            ctx.count('memo_tie_races_same_key_computed_twice', int(same_key_race))
+            fn.cache_clear()
+    sess.finish()
+
+    # ---- the kwarg cache of falcon.asgi.Request.get_header: at most 64 names, never evicted
+    cache = _name_cache_of(falcon.asgi.Request)
+    ctx.count('name_cache_found', int(cache is not None))      # (if it is gone the inventory tie reports a stale row)
+    if cache is not None:
+        for _ in range(ctx.n(12, 120)):
+            names = [rnd.choice(['X-', 'x-', 'Accept-', 'CONTENT-', 'If-', 'c19-']) + ''.join(rnd.choice('abcdefGHIJ') for _ in range(rnd.randint(1, 5))) + str(rnd.randrange(30))
+                     for _ in range(rnd.choice([20, 70, 90]))]
+            names = list(dict.fromkeys(names))
+            hdrs = {nm.lower(): nm.lower() for nm in names}
+            req = falcon.asgi.Request(ft.create_scope(headers=hdrs), None)
+            cache.clear()
+            tok, fresh, evs, done = {}, {}, [], []
+            h = m = 0
+            for _c in range(rnd.randint(len(names), 3 * len(names))):
+                nm = rnd.choice(names)
+                t = tok.setdefault(nm, f'k{len(tok)}')
+                fresh[t] = 'v' + hx(nm.lower().encode('latin1'))
+                hit = nm in cache
+                h, m = h + hit, m + (not hit)
+                val = req.get_header(nm)
+                evs += [f'c0:{t}', 's0', 's0', 's0']
+                done.append(f'0:{t}:v{hx((val or "").encode("latin1"))}:h{h}m{m}z{len(cache)}')
+            sess_nc.case({'names': len(names), 'calls': len(done)})
+            sess_nc.op(f'memo skip 64 {";".join(f"{t}={v}" for t, v in fresh.items())} {",".join(evs)}',
+                       ' '.join(done) + f' size={len(cache)} hits={h} misses={m} agree=1')
+            ctx.seen(('name-cache', tuple(names[:8]), len(done)), len(names) > 64)
+            ctx.count('name_cache_sequences')
+            ctx.count('name_cache_sequences_overflowing', int(len(names) > 64))
+        cache.clear()
+    sess_nc.finish()
+
+
 LEVEL_TEXT = ('Machine-checked proofs (Lean 4): (a) the lazy-compile protocol of CompiledRouter (find / _compile_and_find / _compile as a small-step system at attribute-load granularity, any number of threads, '
               'any schedule, any table size): every finished thread ran the finder of the one and only compile on that compile\'s complete tables, nobody re-enters the stub, at most one compile '
               '(every_thread_gets_serial_result, via the invariant run_inv and the monotonicity lemma Good_mono); without the lock the statement fails on a 17-step schedule (no_lock_witness). '
               '(b) a generic non-interference theorem: tasks that touch only their own component and consult shared state through memoised pure functions end, under any interleaving and any memo eviction, '
               'exactly where they end alone (noninterference_of_local_steps, memo_transparent). '
+              '(c) the kinds of process-wide mutable state that exist in falcon/: a shared bounded memo table at lookup/compute/store granularity with racing computations of one key, overwriting stores, arbitrary eviction and '
+              'cache_clear() (Sm.memo_transparent, via the invariant Sm.step_inv), a lazily initialised cell written by racing threads (Lz.lazy_init_idempotent), and their composition with the locked router compile and '
+              'per-request programs through safe protocols and products of protocols (Cp.noninterference, Cp.memo_safe/lazy_safe/router_safe/prod_safe, Cp.falcon_shared_noninterference). '
+              'Tie for (c): an AST inventory of every piece of state in falcon/ that outlives a request (memo decorators, module-level containers/instances, mutable default arguments, class attributes, instance attributes of '
+              'long-lived objects written outside __init__) is compared on every run with a hand-classified table (46 items: 8+3 memos, 7 lock-protected, 13 configuration, 10 read-only, 2 false positives, 3 other); every memoised '
+              'function found is probed for shared mutable results; the real lru_cache-wrapped functions and the header-name cache are replayed through the Sm model (single-thread sequences and scheduled thread races). '
               'Tie: the real CompiledRouter runs under a deterministic thread scheduler (sys.settrace; opcode events inside find/_compile_and_find, line events elsewhere; scheduler-aware lock in router._compile_lock); '
               'every explored schedule (all single preemptions, targeted and PRNG 2-3 preemptions) is mapped step by step onto the 12 step kinds of the model and replayed by the compiled model, comparing per-thread outcome, '
               'number of compiles, order of compile starts/publishes and which way each thread went; 2-3 concurrent ASGI requests over generated apps are interleaved at every receive/send/await by a scripted gate and '
               '2-3 WSGI threads are run under the same deterministic scheduler and free-running, all compared with serial execution by an independent oracle.')
-LEVEL_NOTE = ('PARTIAL (proof, partial): the hypothesis of (b) - Falcon\'s per-request steps only touch their own req/resp/params - is validated by interleaved-vs-serial execution, not derived from the source; '
-              'CPython\'s true atomicity and C-level GIL releases are not exhibited. Trusted: Lean kernel + standard axioms, sys.settrace events as preemption points, the scheduler-aware lock, the asyncio gate, the oracles.')
-TECHNIQUE = 'Lean 4 invariant proof over all schedules (small-step LTS) + non-interference lemma + schedule-replay correspondence under a deterministic thread/task scheduler + serial-equivalence oracle'
+LEVEL_NOTE = ('PARTIAL (proof, partial): the hypothesis of the composition theorem - every write after import goes to the request\'s own objects or to an inventoried memo / lazy cell / lock-protected item - rests on a '
+              'syntactic inventory (AST detectors + hand classification, tied to the source on every run) and on interleaved-vs-serial execution, not on a semantic analysis of the Python code; configuration items assume '
+              'no reconfiguration during traffic; CPython\'s true atomicity and C-level GIL releases are not exhibited. Trusted: Lean kernel + standard axioms, sys.settrace events as preemption points, the scheduler-aware lock, '
+              'the asyncio gate, the AST detectors and the classification table, lru_cache\'s atomic lookup/store, the oracles.')
+TECHNIQUE = ('Lean 4 invariant proofs over all schedules (small-step LTS: locked lazy compile, shared bounded memo, lazy cell) + compositional non-interference through safe protocols + checked AST inventory of process-wide state '
+             '+ schedule-replay correspondence under a deterministic thread/task scheduler + serial-equivalence and mutable-result oracles')
